@@ -336,6 +336,9 @@ def run_spec(spec):
     # brand-new generators seeded the same way
     model.reset_randomizer()
     model.reset_rng()
+    # ... and re-seeding keeps every derived collection on the model's generator (the generator object is re-seeded in
+    # place, never replaced behind the collections' back)
+    bad += ["after-reset:" + b for b in derived_bad(model)]
     ref = Model(**seed_kwargs(form, spec["seed"]))
     reseed_ok = ([model.random.random() for _ in range(4)] == [ref.random.random() for _ in range(4)]
                  and model.rng.random(4).tolist() == ref.rng.random(4).tolist())
@@ -361,6 +364,10 @@ def run_spec(spec):
                 d.append(digest(mm))
             runs.append(d)
         same_obj_ok = runs[0] == runs[1] == digs[:3]
+    # an unseeded model must not take its seed from (or otherwise disturb) the process-global generators either
+    m0 = Model()
+    m0.random.random()
+    m0.rng.random()
     py1, np1 = random.getstate(), np.random.get_state()
     return {
         "digests": digs,
